@@ -137,6 +137,17 @@ def gen_cases(rng, tier, scale):
                     items = [_t('#if f', True), _x('x' + L, live=False), _t(link, True, tl, tr), _x(R + 'E'), _t('/if', True), _x('|')]
                     cases.append(rcase(f'lb{j6}', _src(items), {'t': True, 'f': False, 'o': {'k': 1}, 'l': [1]}, entry=0, kind='whole', s=R, exp=_exp(items), tags=['live-else-branch']))
                     j6 += 1
+    # a block opened INLINE after text ending in blanks, with else / else-chain tags alone on their lines: the text in front of
+    # the opening tag keeps its blanks (the standalone rule of the else tag concerns the else tag's own line only)
+    j7 = 0
+    for head in ('Status: ', 'k:\t', 'x  '):
+        for open_, live in (('#if t', True), ('#if f', False), ('#each l', True)):
+            for link in ('else if t', 'else', 'else unless f', '^if t'):
+                if link.startswith('^') and open_.startswith('#each'):
+                    continue
+                items = [_x(head), _t(open_, True), _x('A\n', live=live), _t(link, True), _x('\nB\n', live=not live), _t('/' + open_[1:].split(' ')[0], True), _x('\ndone')]
+                cases.append(rcase(f'ie{j7}', _src(items), {'t': True, 'f': False, 'l': [1]}, entry=0, kind='whole', s=head, exp=_exp(items), tags=['inline-open-standalone-else']))
+                j7 += 1
     # a lone CR (not followed by LF) is ordinary text: it is never removed, also not directly after a tag that
     # stands at the start of a line
     for j2, (tpl, exp) in enumerate([('{{! note }}\rbody', '\rbody'), ('{{#if t}}\rx{{/if}}', '\rx'), ('{{{{raw}}}}\rz{{{{/raw}}}}', '\rz'),
